@@ -80,7 +80,8 @@ def build(case):
     if sub == 'c11':
         cfg['growth'] = False
         for life in sc['lives']:
-            if life['end'] in ('sever_halfopen', 'ping_timeout'):
+            if life['end'] in ('sever_halfopen', 'ping_timeout',
+                               'sdisc_ping_expired', 'emit_ping_expired'):
                 life['end'] = 'sever'
     if sub == 'c12':
         cfg['mem'] = False
